@@ -98,3 +98,26 @@ Definition guard_consistent (T : tables) : bool :=
                     | Some r => match sc_itypes r with [] => false | rit => negb (mem (snd p) rit) end
                     | None => false
                     end) (t_guardrails T).
+
+(* well-formed input: every type has a table entry and every interface whose site matters belongs to a node
+   (NetworkService.__validate_nstype_constraints: "interfaces is a list of interfaces belonging to nodes!") *)
+Definition endpoint_owned (e : endpoint) : bool := is_some (ep_owner e).
+Definition svc_wf (T : tables) (s : asvc) : bool :=
+  match assoc (s_type s) (t_services T) with
+  | None => false
+  | Some r => match node_ifaces (s_ifaces s) with
+              | None => true      (* rejected before any owner is looked at *)
+              | Some eps => (sc_num_sites r =? t_no_limit T)%Z || forallb endpoint_owned eps
+              end
+  end.
+Definition slice_wf (T : tables) (sl : slice) : bool :=
+  forallb (fun n => is_some (assoc (n_type n) (t_nodes T))) (sl_nodes sl) && forallb (svc_wf T) (sl_services sl).
+
+(* the slice after validation: every service carries its recorded site *)
+Definition with_site (s : asvc) (a : osite) : asvc := mk_asvc (s_type s) a (s_set s) (s_ifaces s).
+Fixpoint record_sites (l : list asvc) (sts : list osite) : list asvc :=
+  match l, sts with
+  | s :: r, a :: t => with_site s a :: record_sites r t
+  | _, _ => l
+  end.
+Definition recorded (sl : slice) (sts : list osite) : slice := mk_slice (sl_nodes sl) (record_sites (sl_services sl) sts).
